@@ -25,6 +25,12 @@ func init() {
 		})
 		o.p("def rewriteLoop : List String := %s\n", leanList(rw))
 		o.p("def rewriteExpected : List String := %s\n", leanList(assignRHS(ev, "rewriteExpected")))
+		// the whole decision procedure of the strategy, as a skeleton: which helper is called on which base, and what is remembered
+		o.p("def skeleton_eval : List String := %s\n", leanList(skeleton(ev.Body,
+			suffixIn("IsEntityEqual", "findRefs", "processRefs", "DeepEqual", "bytes.Equal", "mkLatestKey"),
+			func(l string) bool {
+				return l == "d.prev" || l == "d.prevJsonKey" || l == "d.prevEntityBytes" || l == "identical" || l == "isDuplicate" || l == "break" || l == "continue"
+			})))
 		fe := mustFunc("internal/service/dataset/compact.go", "CompactionWorker", "forEntity")
 		// the change-log scan (strategy.flush) runs in EVERY flush transaction, unconditionally: first
 		// statement of the Update closure
